@@ -664,8 +664,12 @@ func collect(t *vty, ctx string, out *[]site) {
 				return "named-scope"
 			}})
 		}
+		tc := "targ"
+		if ctx == "targfb" {
+			tc = "targfb" // everything below a func/struct/interface argument is printed by types.TypeString
+		}
 		for _, a := range t.Targs {
-			collect(a, "targ", out)
+			collect(a, tc, out)
 		}
 	case kPtr, kSlice:
 		*out = append(*out, site{ctx, func(r *vrng) string {
